@@ -287,6 +287,14 @@ def run_check(mod, tier: str, seed: int) -> int:
 
     wall = time.monotonic() - t0
     not_run = max(0, agg.planned - agg.runs - agg.skipped)
+    # operation-level saturation counters ("sat|<program>|<possible>|<order>") are summarised, not dumped
+    sat: dict[str, dict] = {}
+    for k in [k for k in agg.extra if isinstance(k, str) and k.startswith("sat|")]:
+        _s, prog, possible, _order = k.split("|", 3)
+        d = sat.setdefault(prog, {"possible": int(possible), "distinct_seen": 0, "samples": 0})
+        d["distinct_seen"] += 1
+        d["samples"] += agg.extra[k]
+        del agg.extra[k]
     cov = {
         "evaluations": agg.runs + pinned_n,
         "distinct_nontrivial": len(agg.nontrivial),
@@ -307,6 +315,7 @@ def run_check(mod, tier: str, seed: int) -> int:
         "distinct_line_level_interleavings": len(agg.line_digests),
         "distinct_model_states": len(agg.states),
         "other_counters": dict(sorted(agg.extra.items())),
+        "operation_level_interleaving_saturation": {"note": "fixed 2-thread programs, operation-level schedules drawn uniformly at random; possible = C(a+b, a) merge orders of the two threads' operation-level yield points", "per_program": sat} if sat else None,
         "zygotes_started": zstarts,
         "batch_log_digest": digest(sorted((str(k), v) for k, v in agg.logdig.items())),
         "real_code": mod.DESCRIPTION["real_code"],
